@@ -51,7 +51,7 @@ fn run_case(_kind: &str, idx: u64, rng: &mut Rng, mon: &mut Mon, _tier: Tier) {
     let focus = rng.usize(7); // 6 = all joints random
     for j in 0..6 {
         // (tiny arcs only on the deciding joint: elsewhere they would make the whole vector inconclusive)
-        let cls = if focus < 6 && j != focus { rng.usize(8) } else { rng.usize(9) };
+        let cls = if focus < 6 && j != focus { *rng.pick(&[0, 1, 2, 3, 4, 5, 6, 7, 9]) } else { rng.usize(10) };
         let (f, t) = crate::gen::limit_pair(rng, cls, rng.clone().range(-PI, PI));
         from[j] = f;
         to[j] = t;
